@@ -12,6 +12,7 @@ correspondence in general).
 import SmppVerif.Lemmas.Ledger
 import SmppVerif.Lemmas.RcptHistory
 import SmppVerif.Lemmas.SegReceipts
+import SmppVerif.Lemmas.SegResponses
 
 namespace SmppVerif.Props.C02
 open SmppVerif SmppVerif.Corr SmppVerif.Lemmas.Corr SmppVerif.Lemmas.Expiry SmppVerif.Lemmas.Ledger
@@ -182,6 +183,54 @@ theorem segmented_receipts_any_order (A : Accepted) (now : Nat) (order : List Na
         List.replicate (A.n - 1) Handled.placeholder ++ [.msg { r with logId := A.L, extra := A.X }] :=
   all_orders A now order s hperm hinv hnow
 
+open SmppVerif.Lemmas.SegReceipts SmppVerif.Lemmas.SegResponses in
+/-- THE ACCEPTED STATE IS REACHED, IN WHATEVER ORDER THE RESPONSES COME: let the `n` segments of a message be stored and
+    awaiting their responses (`PInv A [] s`).  Then for EVERY permutation `order` of 1..n, handling the accepting
+    responses in that order calls no hook from a sweep, hands the hook `n - 1` placeholders and then exactly one response
+    carrying the message's log_id and extra_data, records each segment's SMSC id with its submit_sm, and ends in the state
+    `Inv A [] none` that `segmented_receipts_any_order` starts from. -/
+theorem segmented_responses_any_order (A : Sent) (order : List Nat) (s : CState)
+    (hperm : order.Perm (List.range' 1 A.n)) (hinv : PInv A [] s) :
+    (∃ m, (runResponses A s order).2.2 = List.replicate (A.n - 1) Handled.placeholder ++ [.msg m] ∧
+      m.logId = A.L ∧ m.extra = A.X) ∧
+    (runResponses A s order).2.1 = [] ∧
+    Inv A.toAccepted [] none (runResponses A s order).1 ∧
+    (runResponses A s order).1.ttlDeliv = A.TD :=
+  all_orders_resp A order s hperm hinv
+
+open SmppVerif.Lemmas.SegReceipts SmppVerif.Lemmas.SegResponses in
+/-- FROM THE EMPTY CORRELATOR TO THE ONE RECEIPT: the Sender stores the `n` segments of a message in turn, the SMSC
+    accepts them — responses in ANY order `ro` — and reports on them — receipts in ANY order `co` —, nothing reaching a
+    time-to-live meanwhile.  Then no time-out is reported, the hook is handed exactly one response and exactly one receipt
+    (after `n - 1` placeholders each), both carrying the message's log_id and extra_data. -/
+theorem segmented_message_end_to_end (A : Queued) (s0 : CState) (ro co : List Nat) (now : Nat)
+    (httl : s0.ttlResp = A.TR ∧ s0.ttlDeliv = A.TD) (hs : s0.store = []) (hd : s0.delivStore = [])
+    (hds : s0.delivSegStore = []) (hst : aget s0.segStatus A.ref = none)
+    (hro : ro.Perm (List.range' 1 A.n)) (hco : co.Perm (List.range' 1 A.n)) (hnow : now ≤ A.TD) :
+    (runPuts A s0 A.n).2 = [] ∧
+    (runResponses A.toSent (runPuts A s0 A.n).1 ro).2.1 = [] ∧
+    (∃ m, (runResponses A.toSent (runPuts A s0 A.n).1 ro).2.2 =
+        List.replicate (A.n - 1) Handled.placeholder ++ [.msg m] ∧ m.logId = A.L ∧ m.extra = A.X) ∧
+    (∃ r, pick A.toAccepted none co = some r ∧
+      (runReceipts A.toAccepted now (runResponses A.toSent (runPuts A s0 A.n).1 ro).1 co).2 =
+        List.replicate (A.n - 1) Handled.placeholder ++ [.msg { r with logId := A.L, extra := A.X }]) := by
+  obtain ⟨hp, hpo⟩ := runPuts_inv A s0 (putInv_empty A s0 httl hs hd hds hst) A.n (Nat.le_refl _)
+  obtain ⟨hm, ho, hinv, htd⟩ := all_orders_resp A.toSent ro _ hro (putInv_all A _ hp)
+  exact ⟨hpo, ho, hm, all_orders A.toAccepted now co _ hco hinv (by rw [htd]; exact hnow)⟩
+
+open SmppVerif.Lemmas.SegReceipts SmppVerif.Lemmas.SegResponses in
+/-- non-vacuity: such a message exists (3 segments, sequence numbers 1..3, SMSC ids [1]..[3], receipts without error) -/
+example : ∃ A : Queued, A.n = 3 ∧ A.L = 7 :=
+  ⟨{ n := 3, ref := 4, q := id, ident := fun i => [i],
+     sub := fun i => { kind := .submitSm, seq := i, logId := 7, extra := 8, hasSar := true, sarRef := 4, sarSeq := i, sarTotal := 3 },
+     t := fun _ => 2, rc := fun i => { kind := .deliverSm, seq := 100 + i, isReceipt := true, rcptId := [i], rcptErr := some 0 },
+     L := 7, X := 8, hn := by decide, hq := fun _ => rfl, hL := fun _ => ⟨rfl, rfl⟩,
+     qinj := fun _ _ h => h, idinj := fun _ _ h => by simpa using h,
+     rcR := fun _ => ⟨rfl, rfl, rfl⟩, rcC := fun _ => ⟨by simp [codeOf], by simp [codeOf, sSent, Gen.Consts.statusSent]⟩,
+     TR := 1000, TD := 100000, tq := fun _ => 1, resp := fun i => { kind := .submitSmResp, seq := i, msgId := [i] },
+     hsub := fun _ => rfl, hresp := fun _ => ⟨rfl, rfl, rfl, rfl⟩, hR := fun _ _ => by decide, hD := fun _ _ => by decide,
+     hsar := fun _ => ⟨rfl, rfl, rfl⟩, hQ := fun _ _ => by decide }, rfl, rfl⟩
+
 open SmppVerif.Lemmas.SegReceipts in
 /-- … and it is a failing receipt if any segment's receipt reports an error: the LAST failing one in arrival order … -/
 theorem picked_is_last_failing (A : Accepted) (pre post : List Nat) (j : Nat)
@@ -241,5 +290,7 @@ end SmppVerif.Props.C02
 #print axioms SmppVerif.Props.C02.receipt_attributed_after_any_history
 #print axioms SmppVerif.Props.C02.unknown_receipt_after_any_history
 #print axioms SmppVerif.Props.C02.segmented_receipts_any_order
+#print axioms SmppVerif.Props.C02.segmented_responses_any_order
+#print axioms SmppVerif.Props.C02.segmented_message_end_to_end
 #print axioms SmppVerif.Props.C02.picked_is_last_failing
 #print axioms SmppVerif.Props.C02.picked_is_first_when_none_fails
